@@ -350,7 +350,9 @@ def _splice_one(c, rel, fns, src, msk, add, registry):
         attrs = list(c.attrs)
         if c.rlimit and not VACUITY:   # the vacuity run only needs 'false is not derivable cheaply'
             attrs.append('#[verifier::rlimit(%d)]' % c.rlimit)
-        if c.assumed:
+        if getattr(c, 'fully_external', False):
+            attrs.append('#[verifier::external]')   # even the signature is outside the verifier's reach (external type)
+        elif c.assumed:
             attrs.append('#[verifier::external_body]')
         if attrs:
             add(line_start, ''.join(a + '\n' for a in attrs))
